@@ -19,8 +19,8 @@ PROPS = {
                        "infinite so a sampled, signature-stratified exploration is the strongest this family offers"),
         "level_note": "trusted: jxlgen entropy encoder (validated against the pinned decoder over millions of streams), the worker's comparison code",
         "technique": "runtime differential monitor: reference encoder -> real decoder, exact value/bit-count/final-state oracle",
-        "quick": {"cases": 400000, "floor": 10000, "time_budget": 300},
-        "thorough": {"cases": 20000000, "floor": 500000, "time_budget": 3000},
+        "quick": {"cases": 1000000, "floor": 25000, "time_budget": 300},
+        "thorough": {"cases": 20000000, "floor": 500000, "time_budget": 900},
     },
 }
 
@@ -44,8 +44,8 @@ PROPS["C14"] = {
                    "branch bits is what a runtime monitor can do"),
     "level_note": "trusted: jxlgen header writer + comparison code in vcheck/src/c14.rs",
     "technique": "runtime differential monitor: independent header writer -> real parser, field-by-field and bit-position oracle",
-    "quick": {"cases": 300000, "floor": 7500, "time_budget": 300},
-    "thorough": {"cases": 12000000, "floor": 300000, "time_budget": 3000},
+    "quick": {"cases": 1000000, "floor": 25000, "time_budget": 300},
+    "thorough": {"cases": 12000000, "floor": 300000, "time_budget": 900},
 }
 
 PROPS["C03"] = {
@@ -76,7 +76,7 @@ PROPS["C03"] = {
     "level_note": "trusted: jxlgen (entropy encoder, header writer, Modular model+encoder), comparison code in vcheck/src/c03.rs",
     "technique": "runtime differential monitor: independent Modular encoder/model -> real decoder, exact per-sample oracle",
     "quick": {"cases": 30000, "floor": 750, "time_budget": 300},
-    "thorough": {"cases": 2500000, "floor": 62500, "time_budget": 3000},
+    "thorough": {"cases": 2500000, "floor": 62500, "time_budget": 900},
 }
 
 PROPS["C09"] = {
@@ -103,7 +103,7 @@ PROPS["C09"] = {
     "level_note": "trusted: jxlgen writers and their recorded boundaries, snapshot/diff code in feedutil.rs",
     "technique": "runtime differential monitor over recorded API histories: chunked feed schedules vs one-shot decode, plus writer-recorded offsets as ground truth",
     "quick": {"cases": 24000, "floor": 600, "time_budget": 300},
-    "thorough": {"cases": 220000, "floor": 5500, "time_budget": 3000},
+    "thorough": {"cases": 220000, "floor": 5500, "time_budget": 900},
 }
 
 PROPS["C11"] = {
@@ -126,7 +126,7 @@ PROPS["C11"] = {
     "level_note": "trusted: jxlgen writers and their recorded boundaries, snapshot/diff code in feedutil.rs",
     "technique": "runtime monitor over truncation histories: prefix-state oracles from writer-recorded boundaries + differential check of the completed decode",
     "quick": {"cases": 3000, "floor": 75, "time_budget": 300},
-    "thorough": {"cases": 26000, "floor": 650, "time_budget": 3000},
+    "thorough": {"cases": 26000, "floor": 650, "time_budget": 900},
 }
 
 PROPS["C10"] = {
@@ -148,7 +148,7 @@ PROPS["C10"] = {
     "level_note": "trusted: jxlgen::container writer + reference reader (cross-checked against each other per file), comparison code in c10.rs",
     "technique": "runtime differential monitor: independent container writer + reference reader vs ContainerParser event stream under many chunkings, and vs JxlImage aux box API",
     "quick": {"cases": 3000000, "floor": 75000, "time_budget": 240},
-    "thorough": {"cases": 100000000, "floor": 2500000, "time_budget": 2700},
+    "thorough": {"cases": 100000000, "floor": 2500000, "time_budget": 900},
 }
 
 PROPS["C16"] = {
@@ -173,7 +173,7 @@ PROPS["C16"] = {
     "level_note": "trusted: jxlgen::dctref (O(N^2)/separable f64 evaluation), comparison code in c16.rs, hook H3 wrappers (pass-through)",
     "technique": "runtime differential monitor: f64 definition model vs real generic/SSE code through hook H3",
     "quick": {"cases": 300000, "floor": 7500, "time_budget": 300},
-    "thorough": {"cases": 8000000, "floor": 200000, "time_budget": 3000},
+    "thorough": {"cases": 8000000, "floor": 200000, "time_budget": 900},
 }
 
 PROPS["C17"] = {
@@ -198,7 +198,7 @@ PROPS["C17"] = {
     "level_note": "trusted: jxlgen::jpeg / jbrd / vardct / container writers, byte comparison in c17.rs",
     "technique": "runtime round-trip monitor: independent JPEG writer + jbrd/VarDCT transcoder vs real reconstruct_jpeg (byte-exact), status-trace monitor under partial feeding",
     "quick": {"cases": 24000, "floor": 600, "time_budget": 300},
-    "thorough": {"cases": 400000, "floor": 10000, "time_budget": 3000},
+    "thorough": {"cases": 400000, "floor": 10000, "time_budget": 900},
 }
 
 PROPS["C18"] = {
@@ -220,7 +220,7 @@ PROPS["C18"] = {
     "level_note": "trusted: jxlgen::icc encoder (inverse of each command, validated against the pinned decoder), jxlgen entropy encoder",
     "technique": "runtime differential monitor: reference ICC encoder -> real decoder, exact byte/bit oracle; inconsistent encodings must be Err",
     "quick": {"cases": 800000, "floor": 20000, "time_budget": 300},
-    "thorough": {"cases": 25000000, "floor": 625000, "time_budget": 3000},
+    "thorough": {"cases": 25000000, "floor": 625000, "time_budget": 900},
 }
 
 _C19_EXTRA = {"allow": "all", "report-known": "1"}
@@ -243,7 +243,7 @@ PROPS["C19"] = {
     "level_note": "trusted: f64 model and comparison code in c19.rs",
     "technique": "runtime monitor: real synthesiser/parser/transforms vs independent f64 model and definitions",
     "quick": {"cases": 30000000, "floor": 750000, "time_budget": 300, "extra": _C19_EXTRA},
-    "thorough": {"cases": 900000000, "floor": 22500000, "time_budget": 3000, "extra": _C19_EXTRA},
+    "thorough": {"cases": 900000000, "floor": 22500000, "time_budget": 900, "extra": _C19_EXTRA},
 }
 
 PROPS["C12"] = {
@@ -265,8 +265,8 @@ PROPS["C12"] = {
                    "compared value for value, plus comparison with the independent encoder truth"),
     "level_note": "trusted: jxlgen Modular encoder/model (range tracking), comparison code in c12.rs",
     "technique": "runtime differential monitor: same stream through narrow(SIMD) and wide(scalar) decode paths + reference truth",
-    "quick": {"cases": 6000, "floor": 150, "time_budget": 240},
-    "thorough": {"cases": 400000, "floor": 10000, "time_budget": 3000},
+    "quick": {"cases": 20000, "floor": 500, "time_budget": 240},
+    "thorough": {"cases": 400000, "floor": 10000, "time_budget": 900},
 }
 
 PROPS["C05"] = {
@@ -289,8 +289,8 @@ PROPS["C05"] = {
     "level_text": "exploration: thousands of random frame sequences per run compared sample by sample with an independent compositor",
     "level_note": "trusted: jxlgen::anim compositor + Modular encoder, comparison code in c05.rs",
     "technique": "runtime differential monitor: independent f64 compositor vs real renderer on generated multi-frame streams",
-    "quick": {"cases": 12000, "floor": 300, "time_budget": 240},
-    "thorough": {"cases": 600000, "floor": 15000, "time_budget": 3000},
+    "quick": {"cases": 100000, "floor": 2500, "time_budget": 240},
+    "thorough": {"cases": 600000, "floor": 15000, "time_budget": 900},
 }
 
 PROPS["C08"] = {
@@ -315,8 +315,8 @@ PROPS["C08"] = {
                    "for images with <= 60/400 points), with follow-up call sequences and recovery; wedges are decided logically from hook events"),
     "level_note": "trusted: hooks H1/H2 (add-only, pass-through), monitor.rs orphan logic, generators",
     "technique": "fault injection at every tracked allocation + protocol-event monitor (logical wedge detection) + differential re-render",
-    "quick": {"cases": 700, "floor": 20, "time_budget": 240},
-    "thorough": {"cases": 30000, "floor": 750, "time_budget": 3000},
+    "quick": {"cases": 5000, "floor": 125, "time_budget": 240},
+    "thorough": {"cases": 30000, "floor": 750, "time_budget": 900},
 }
 
 PROPS["C13"] = {
@@ -336,7 +336,7 @@ PROPS["C13"] = {
     "level_note": "trusted: hook H1 shadow counters (updated in the same call as the budget), c13.rs",
     "technique": "online invariant monitor on hooked allocator state + quiescence checks through the public API",
     "quick": {"cases": 20000, "floor": 500, "time_budget": 240},
-    "thorough": {"cases": 300000, "floor": 7500, "time_budget": 3000},
+    "thorough": {"cases": 300000, "floor": 7500, "time_budget": 900},
 }
 
 PROPS["C20"] = {
@@ -361,7 +361,7 @@ PROPS["C20"] = {
     "level_note": "trusted: hook H2 event placement (add-only), the scheduler in c20.rs",
     "technique": "controlled-schedule concurrency testing of the real code (hook-driven baton scheduler, random + PCT strategies) with online protocol monitors",
     "quick": {"cases": 500, "floor": 20, "time_budget": 240},
-    "thorough": {"cases": 20000, "floor": 500, "time_budget": 3000},
+    "thorough": {"cases": 20000, "floor": 500, "time_budget": 900},
 }
 
 PROPS["C15"] = {
@@ -383,7 +383,7 @@ PROPS["C15"] = {
     "level_note": "trusted: jxlgen encoder + EXIF-derived orientation model in c15.rs",
     "technique": "runtime differential monitor: independent encoder + EXIF-derived orientation model -> real decoder outputs, per-sample oracle",
     "quick": {"cases": 40000, "floor": 1000, "time_budget": 240},
-    "thorough": {"cases": 700000, "floor": 17500, "time_budget": 3000},
+    "thorough": {"cases": 700000, "floor": 17500, "time_budget": 900},
 }
 
 PROPS["C06"] = {
@@ -408,7 +408,7 @@ PROPS["C06"] = {
     "level_note": "trusted: comparison code in vcheck/src/c06.rs (crop indexing, orientation mapping verified against encoder truth by c06::selftest)",
     "technique": "runtime metamorphic monitor: region render vs crop of full render on a fresh object, plus history independence (bit-exact)",
     "quick": {"cases": 6000, "floor": 150, "time_budget": 300},
-    "thorough": {"cases": 45000, "floor": 1200, "time_budget": 3000},
+    "thorough": {"cases": 45000, "floor": 1200, "time_budget": 900},
 }
 
 PROPS["C07"] = {
@@ -428,7 +428,7 @@ PROPS["C07"] = {
     "level_note": "trusted: hook H4 permutation (add-only), comparison code in c07.rs",
     "technique": "runtime differential monitor across thread-pool sizes, permuted job orders and concurrent callers; bit-exact comparison",
     "quick": {"cases": 960, "floor": 20, "time_budget": 240},
-    "thorough": {"cases": 20000, "floor": 500, "time_budget": 3000},
+    "thorough": {"cases": 20000, "floor": 500, "time_budget": 900},
 }
 
 PROPS["C01"] = {
@@ -457,8 +457,8 @@ PROPS["C01"] = {
                    "on valid-syntax hostile values and on the API surface upstream fuzzing never drives"),
     "level_note": "trusted: worker panic attribution (location under /repo), supervisor crash attribution by progress file",
     "technique": "runtime monitoring under hostile workloads: panic/abort/hang monitors on a checked build (overflow + debug assertions)",
-    "quick": {"cases": 60000, "floor": 1500, "time_budget": 240},
-    "thorough": {"cases": 3000000, "floor": 60000, "time_budget": 3000},
+    "quick": {"cases": 150000, "floor": 3750, "time_budget": 240},
+    "thorough": {"cases": 3000000, "floor": 60000, "time_budget": 900},
 }
 
 _C02_RULE = ("stages: (1) ASan build (nightly -Zsanitizer=address, release, wrapping arithmetic): the C01 hostile workload with a share of "
@@ -484,16 +484,16 @@ PROPS["C02"] = {
     "technique": "compiler sanitizers (ASan, TSan), valgrind memcheck and Miri over generated hostile + boundary-shape workloads",
     "stages": [
         {"worker": "c02", "variant": "asan", "quick": {"cases": 12000, "floor": 300, "time_budget": 200, "extra": {"ignore-panics": 1}},
-         "thorough": {"cases": 600000, "floor": 10000, "time_budget": 1500, "extra": {"ignore-panics": 1}}},
+         "thorough": {"cases": 600000, "floor": 10000, "time_budget": 900, "extra": {"ignore-panics": 1}}},
         {"worker": "c12", "variant": "asan", "quick": {"cases": 1500, "floor": 40, "time_budget": 120, "extra": {"ignore-panics": 1}},
          "thorough": {"cases": 40000, "floor": 1000, "time_budget": 900, "extra": {"ignore-panics": 1}}},
-        {"worker": "c03", "variant": "asan", "quick": {"cases": 3000, "floor": 80, "time_budget": 120, "extra": {"ignore-panics": 1}},
-         "thorough": {"cases": 80000, "floor": 2000, "time_budget": 900, "extra": {"ignore-panics": 1}}},
-        {"worker": "c12", "variant": "vg", "thorough": {"cases": 1200, "floor": 30, "time_budget": 900, "shards": 16, "hang_budget": 900, "extra": {"ignore-panics": 1}}},
-        {"worker": "c03", "variant": "miri", "thorough": {"cases": 160, "floor": 4, "time_budget": 1200, "shards": 16, "hang_budget": 1200, "extra": {"ignore-panics": 1, "tiny": 1}}},
-        {"worker": "c12", "variant": "miri+sse4.1", "thorough": {"cases": 96, "floor": 2, "time_budget": 1200, "shards": 16, "hang_budget": 1200, "extra": {"ignore-panics": 1, "tiny": 1}}},
-        {"worker": "c12", "variant": "miri+avx2", "thorough": {"cases": 96, "floor": 2, "time_budget": 1200, "shards": 16, "hang_budget": 1200, "extra": {"ignore-panics": 1, "tiny": 1}}},
-        {"worker": "c07", "variant": "tsan", "thorough": {"cases": 600, "floor": 10, "time_budget": 1200, "hang_budget": 600, "extra": {"ignore-panics": 1}}},
+        {"worker": "c03", "variant": "asan", "quick": {"cases": 3000, "floor": 80, "time_budget": 120, "extra": {"ignore-panics": 1, "preview-mode": 1}},
+         "thorough": {"cases": 80000, "floor": 2000, "time_budget": 900, "extra": {"ignore-panics": 1, "preview-mode": 1}}},
+        {"worker": "c12", "variant": "vg", "thorough": {"cases": 1200, "floor": 30, "time_budget": 600, "shards": 16, "hang_budget": 900, "extra": {"ignore-panics": 1}}},
+        {"worker": "c03", "variant": "miri", "thorough": {"cases": 160, "floor": 4, "time_budget": 600, "shards": 16, "hang_budget": 1200, "extra": {"ignore-panics": 1, "tiny": 1, "preview-mode": 1}}},
+        {"worker": "c12", "variant": "miri+sse4.1", "thorough": {"cases": 96, "floor": 2, "time_budget": 600, "shards": 16, "hang_budget": 1200, "extra": {"ignore-panics": 1, "tiny": 1}}},
+        {"worker": "c12", "variant": "miri+avx2", "thorough": {"cases": 96, "floor": 2, "time_budget": 600, "shards": 16, "hang_budget": 1200, "extra": {"ignore-panics": 1, "tiny": 1}}},
+        {"worker": "c07", "variant": "tsan", "thorough": {"cases": 600, "floor": 10, "time_budget": 600, "hang_budget": 600, "extra": {"ignore-panics": 1}}},
     ],
 }
 
